@@ -33,7 +33,10 @@ class Ctx:
 
     @property
     def bin(self):
-        return self.prog("pumpkin_solver-executable")
+        b = self.prog("pumpkin_solver-executable")
+        if not b.ext:
+            b.ext = [self.lib, self.drcp]
+        return b
 
     @property
     def drcp(self):
